@@ -13,8 +13,9 @@ import (
 )
 
 // C16 — handshake: version negotiation, advertised capabilities, client state machine.
-//   R-cap-wired         every object computing the advertised capabilities has its registry pointers set
-//   (R-flag-typestate also requires Close to clear the flag on every path after the transport was closed)
+//
+//	R-cap-wired         every object computing the advertised capabilities has its registry pointers set
+//	(R-flag-typestate also requires Close to clear the flag on every path after the transport was closed)
 func init() { Registry["C16"] = checkC16 }
 
 func checkC16(c *Ctx) {
